@@ -172,7 +172,7 @@ def run(chk, replay=None):
         for f in corpus:
             jobs.append(("corpus:" + os.path.basename(f), ["replay", str(set_seed), "8"], open(f).read()))
         chk.cov["corpus_files"] = len(corpus)
-        nscen = 3000 if chk.tier == "quick" else 200000
+        nscen = 3000 if chk.tier == "quick" else 140000     # ≈ 3 M calls: ≤ 15 min on a box with load 60
         nshard = 4 if chk.tier == "quick" else 64
         step = (nscen + nshard - 1) // nshard
         for s in range(nshard):
